@@ -55,7 +55,12 @@ func (c cfgSpec) build() *httpserver.Config {
 	cfg, err := httpserver.NewConfig(c.addr, routes,
 		httpserver.WithDrainTimeout(time.Duration(c.drain)), httpserver.WithReadTimeout(time.Duration(c.read)),
 		httpserver.WithWriteTimeout(time.Duration(c.write)), httpserver.WithIdleTimeout(time.Duration(c.idle)))
-	must(err)
+	if err != nil {
+		// route sets the ServeMux would reject (duplicate or conflicting patterns) are refused by NewConfig since the
+		// C19 repair; Equal is defined on any Config value, so those are compared as plain values
+		return &httpserver.Config{ListenAddr: c.addr, Routes: routes, DrainTimeout: time.Duration(c.drain), ReadTimeout: time.Duration(c.read),
+			WriteTimeout: time.Duration(c.write), IdleTimeout: time.Duration(c.idle)}
+	}
 	return cfg
 }
 
